@@ -50,6 +50,7 @@ type queryRec struct {
 	Within [][]int64 `json:"within"` // aligned with rs
 	Inbox  bool      `json:"inbox"`
 	Exact  bool      `json:"exact"` // spec: all distances the query can meet are integers
+	Qfin   bool      `json:"qfin"`  // spec: the query is finitely distant from every stored point
 }
 
 // only restricts a case to one variant; it is set in failure cases so that a
@@ -82,7 +83,61 @@ type histCase struct {
 	Rsq     []bool       `json:"rsq"` // spec: rs[i] is a perfect square
 	Boxes   []boxRec     `json:"boxes"`
 	Qs      []queryRec   `json:"qs"`
-	Only    *only        `json:"only,omitempty"`
+	// far coordinates (SpatialIndex.tla, Far = TRUE): binary exponents of the level units, radix of the
+	// distance codes, and whether the stored points are pairwise finitely distant; empty / 0 on the lattice
+	Far  []int `json:"far,omitempty"`
+	Db   int64 `json:"db,omitempty"`
+	Pfin bool  `json:"pfin"`
+	Only *only `json:"only,omitempty"`
+}
+
+// coder decodes what the specification printed into the float64 operands it denotes.  On the plain
+// lattice a coordinate / squared distance is the printed integer.  With far coordinates
+// (SpatialIndex.tla "far coordinates") a coordinate a denotes a (|a| <= 8), sgn(a)(|a|-8) 2^far[1]
+// (9 <= |a| <= 15) or sgn(a)(|a|-16) 2^far[2] (17 <= |a| <= 23), and a distance code d denotes
+// (d mod db) 2^(2 far[d div db]), which is +Inf for the top level.  Pure decoding: no geometry here.
+type coder struct {
+	far []int
+	db  int64
+}
+
+func (co coder) coord(a int64) float64 {
+	if len(co.far) == 0 {
+		return float64(a)
+	}
+	m, sg := a, 1.0
+	if a < 0 {
+		m, sg = -a, -1.0
+	}
+	switch {
+	case m <= 8:
+		return float64(a)
+	case m <= 15:
+		return sg * math.Ldexp(float64(m-8), co.far[1])
+	case m >= 17 && m <= 23:
+		return sg * math.Ldexp(float64(m-16), co.far[2])
+	}
+	panic(fmt.Sprintf("harness: %d is not a far coordinate code", a))
+}
+
+func (co coder) fl(c []int64) []float64 {
+	r := make([]float64, len(c))
+	for i, v := range c {
+		r[i] = co.coord(v)
+	}
+	return r
+}
+
+// dist2 decodes a squared distance (Ldexp overflows to +Inf for the top level by itself).
+func (co coder) dist2(d int64) float64 {
+	if len(co.far) == 0 {
+		return float64(d)
+	}
+	lev := d / co.db
+	if lev >= int64(len(co.far))-1 {
+		return math.Inf(1)
+	}
+	return math.Ldexp(float64(d%co.db), 2*co.far[lev])
 }
 
 func key(c []float64) string {
@@ -319,14 +374,21 @@ type checker struct {
 	count map[string]int // stored multiplicity per coordinate key
 	all   [][]int64      // built ++ ins
 	sqrt  bool           // distances are Euclidean (vptree) instead of squared (kdtree)
+	co    coder          // decoding of the spec's coordinates and distances
 	fails int
 }
+
+func (ck *checker) fl(c []int64) []float64 { return ck.co.fl(c) }
 
 func (ck *checker) fail(routine, kind, msg string) {
 	ck.fails++
 	cc := *ck.c
 	o := ck.o
 	cc.Only = &o
+	if len(ck.co.far) > 0 {
+		msg += fmt.Sprintf(" {far coordinates: a code a is the coordinate a (|a|<=8), +-(|a|-8)*2^%d (9..15), +-(|a|-16)*2^%d (17..23); a spec distance d is d itself below %d, (d-%d)*2^%d below %d, and +Inf at %d}",
+			ck.co.far[1], ck.co.far[2], ck.co.db, ck.co.db, 2*ck.co.far[1], 2*ck.co.db, 2*ck.co.db)
+	}
 	ck.sum.Fail("spatial:"+ck.impl+"."+routine+":"+kind, fmt.Sprintf("%s [impl=%s bb=%v ib=%v rep=%d eff=%d built=%v ins=%v]", msg, o.Impl, o.Bb, o.Ib, o.Rep, o.Eff, ck.c.Built, ck.c.Ins), &cc)
 }
 
@@ -335,9 +397,9 @@ func (ck *checker) fail(routine, kind, msg string) {
 // square root for vptree.
 func (ck *checker) dist(d2 int64) float64 {
 	if ck.sqrt {
-		return math.Sqrt(float64(d2))
+		return math.Sqrt(ck.co.dist2(d2))
 	}
-	return float64(d2)
+	return ck.co.dist2(d2)
 }
 
 type cd struct {
@@ -401,7 +463,7 @@ func (ck *checker) checkSet(routine string, q *queryRec, got []cd, want []int64,
 	exp := map[string]int64{}
 	all := append(append([][]int64{}, ck.c.Built...), ck.c.Ins...)
 	for i, p := range all {
-		exp[key(fl(p))] = q.Ds[i]
+		exp[key(ck.fl(p))] = q.Ds[i]
 	}
 	seen := map[string]int{}
 	for _, g := range got {
@@ -442,7 +504,7 @@ func (ck *checker) mismatch(q *queryRec, got []cd, want []int64) bool {
 		found := false
 		n := 0
 		for j := range ck.all {
-			if eqCoord(ck.all[j], got[i].c) {
+			if ck.eqCoord(ck.all[j], got[i].c) {
 				if got[i].d != ck.dist(q.Ds[j]) {
 					return true
 				}
@@ -466,12 +528,12 @@ func (ck *checker) mismatch(q *queryRec, got []cd, want []int64) bool {
 	return false
 }
 
-func eqCoord(a []int64, b []float64) bool {
+func (ck *checker) eqCoord(a []int64, b []float64) bool {
 	if len(a) != len(b) {
 		return false
 	}
 	for i := range a {
-		if float64(a[i]) != b[i] {
+		if ck.co.coord(a[i]) != b[i] {
 			return false
 		}
 	}
@@ -559,7 +621,7 @@ func (ck *checker) runKd(kk *kdKind, rng *rand.Rand) {
 	c := ck.c
 	built := make([][]float64, len(c.Built))
 	for i, p := range c.Built {
-		built[i] = fl(p)
+		built[i] = ck.fl(p)
 	}
 	rng.Shuffle(len(built), func(i, j int) { built[i], built[j] = built[j], built[i] })
 	var t *kdtree.Tree
@@ -567,7 +629,7 @@ func (ck *checker) runKd(kk *kdKind, rng *rand.Rand) {
 		return
 	}
 	for i, p := range c.Ins {
-		if !ck.call("Insert", func() { t.Insert(kk.point(fl(p), 1000+i), ck.o.Ib) }) {
+		if !ck.call("Insert", func() { t.Insert(kk.point(ck.fl(p), 1000+i), ck.o.Ib) }) {
 			return
 		}
 	}
@@ -606,11 +668,11 @@ func (ck *checker) runKd(kk *kdKind, rng *rand.Rand) {
 	if gotB && len(c.Box) == 2 {
 		lo, hi := kk.coords(t.Root.Bounding.Min), kk.coords(t.Root.Bounding.Max)
 		for d := range lo {
-			if lo[d] > float64(c.Box[0][d]) || hi[d] < float64(c.Box[1][d]) {
+			if lo[d] > ck.co.coord(c.Box[0][d]) || hi[d] < ck.co.coord(c.Box[1][d]) {
 				ck.fail("Bounding", "root-box-too-small", fmt.Sprintf("root box [%v %v] does not contain the spec's box %v", lo, hi, c.Box))
 				break
 			}
-			if lo[d] != float64(c.Box[0][d]) || hi[d] != float64(c.Box[1][d]) {
+			if lo[d] != ck.co.coord(c.Box[0][d]) || hi[d] != ck.co.coord(c.Box[1][d]) {
 				ck.sum.Count("drift_root_box_not_minimal", 1)
 			}
 		}
@@ -643,12 +705,12 @@ func (ck *checker) runKd(kk *kdKind, rng *rand.Rand) {
 		bx := &c.Boxes[bi]
 		want := map[string]int{}
 		for _, p := range bx.Pts {
-			want[key(fl(p))]++
+			want[key(ck.fl(p))]++
 		}
 		got := map[string]int{}
 		ng := 0
 		var stopped bool
-		bound := &kdtree.Bounding{Min: kk.point(fl(bx.Lo), -2), Max: kk.point(fl(bx.Hi), -3)}
+		bound := &kdtree.Bounding{Min: kk.point(ck.fl(bx.Lo), -2), Max: kk.point(ck.fl(bx.Hi), -3)}
 		if ck.call("DoBounded", func() {
 			stopped = t.DoBounded(bound, func(p kdtree.Comparable, _ *kdtree.Bounding, _ int) bool {
 				got[key(kk.coords(p))]++
@@ -687,7 +749,7 @@ func (ck *checker) runKd(kk *kdKind, rng *rand.Rand) {
 	}
 	for qi := range c.Qs {
 		q := &c.Qs[qi]
-		qp := kk.point(fl(q.Q), -1)
+		qp := kk.point(ck.fl(q.Q), -1)
 		// Nearest
 		var np kdtree.Comparable
 		var nd float64
@@ -798,11 +860,21 @@ func (ck *checker) runVp(vk *vpKind, effort int, src rand.Source) {
 	all := append(append([][]int64{}, c.Built...), c.Ins...)
 	pts := make([]vptree.Comparable, len(all))
 	for i, p := range all {
-		pts[i] = vk.point(fl(p), i)
+		pts[i] = vk.point(ck.fl(p), i)
 	}
 	var t *vptree.Tree
 	var err error
 	if !ck.call("New", func() { t, err = vptree.New(pts, effort, src) }) {
+		return
+	}
+	if len(c.Far) > 0 && !c.Pfin {
+		// vptree.New: "Points in p must not be infinitely distant."  The specification says that two
+		// stored points of this history are: an excluded input (an error or a tree, nothing is judged)
+		if err != nil {
+			ck.sum.Count("vptree_infinitely_distant_points_rejected_by_New", 1)
+		} else {
+			ck.sum.Count("vptree_infinitely_distant_points_accepted_by_New_not_judged", 1)
+		}
 		return
 	}
 	if err != nil || t == nil {
@@ -838,7 +910,13 @@ func (ck *checker) runVp(vk *vpKind, effort int, src rand.Source) {
 	}
 	for qi := range c.Qs {
 		q := &c.Qs[qi]
-		qp := vk.point(fl(q.Q), -1)
+		if len(c.Far) > 0 && !q.Qfin {
+			// the query is infinitely distant from a stored point: the triangle inequality prunes of a
+			// vantage point tree have no meaning there (Inf - Inf) and the documentation is silent
+			ck.sum.Count("vptree_queries_infinitely_distant_not_judged", 1)
+			continue
+		}
+		qp := vk.point(ck.fl(q.Q), -1)
 		var np vptree.Comparable
 		var nd float64
 		if ck.call("Nearest", func() { np, nd = t.Nearest(qp) }) {
@@ -922,11 +1000,12 @@ func replayIndex(in *core.Lines, args []string, seed int64, sum *core.Summary) e
 		}
 		all := append(append([][]int64{}, c.Built...), c.Ins...)
 		count := map[string]int{}
+		co := coder{far: c.Far, db: c.Db}
 		for _, p := range c.Built {
-			count[key(fl(p))]++
+			count[key(co.fl(p))]++
 		}
 		for _, p := range c.Ins {
-			count[key(fl(p))]++
+			count[key(co.fl(p))]++
 		}
 		mu.Lock()
 		sum.Cases++
@@ -940,7 +1019,7 @@ func replayIndex(in *core.Lines, args []string, seed int64, sum *core.Summary) e
 		mu.Unlock()
 		nv := 0
 		run := func(o only) {
-			ck := &checker{sum: lsum, c: &c, o: o, impl: o.Impl, count: count, all: all}
+			ck := &checker{sum: lsum, c: &c, o: o, impl: o.Impl, count: count, all: all, co: co}
 			rng := rand.New(rand.NewPCG(uint64(seed), uint64(o.Rep)*7919+uint64(j.n)))
 			nv++
 			switch o.Impl {
